@@ -18,14 +18,16 @@ __all__ = [
 _yaml_error_section_for_axis = {0: "x_errors", 1: "y_errors", None: "errors"}
 
 
-def add_error_to_container(err_type, container_obj, **kwargs):
+def add_error_to_container(err_type, container_obj, enabled=True, **kwargs):
     # TODO: check kwargs explicitly
     if err_type == "simple":
-        container_obj.add_error(**kwargs)
+        _name = container_obj.add_error(**kwargs)
     elif err_type == "matrix":
-        container_obj.add_matrix_error(**kwargs)
+        _name = container_obj.add_matrix_error(**kwargs)
     else:
         raise TypeError("Unknown error type '{}'. " "Valid: {}".format(err_type, ("simple", "matrix")))
+    if not enabled:
+        container_obj.disable_error(_name)
     return container_obj
 
 
@@ -86,6 +88,8 @@ def write_errors_to_yaml(container, yaml_doc):
                 raise TypeError("Unknown error matrix type '{}'. " "Valid: 'correlation' or 'covariance'.")
         else:
             raise TypeError("No representation for error type {} " "implemented!".format(type(_err_obj)))
+        if not _err_dict["enabled"]:
+            _yaml_section[-1]["enabled"] = False
 
     return yaml_doc
 
@@ -164,6 +168,7 @@ def process_error_sources(container_obj, yaml_doc):
                 raise TypeError("Unknown error type '{}'. " "Valid: {}".format(_err_type, ("simple", "matrix")))
 
             _add_kwargs["relative"] = _err.get("relative", False)
+            _add_kwargs["enabled"] = _err.get("enabled", True)
 
             # if needed, specify the axis (only for 'xy' containers)
             if _axis is not None:
